@@ -1,10 +1,16 @@
 #!/bin/sh
-# usage: tools/try_mutant.sh <patch.diff> <Cxx> [<Cyy> ...]   -- applies the patch to /repo, runs the checks, reverts
-P="$1"; shift
-cd /repo && git apply "$P" || { echo "PATCH DOES NOT APPLY"; exit 3; }
-cd /verif
+# usage: tools/try_mutant.sh <patch.diff> <Cxx> [<Cyy> ...]
+# applies the patch to a scratch worktree of /repo HEAD (never to /repo), runs the checks against it with scratch
+# build and evidence directories, removes everything afterwards.  Extra check flags via CHECK_FLAGS.
+P="$(readlink -f "$1")"; shift
+W=/tmp/tryw.$$; B=/tmp/tryb.$$; E=/tmp/trye.$$
+git -C /repo worktree add -q --detach $W HEAD || exit 3
+mkdir -p $B $E
+cleanup() { git -C /repo worktree remove --force $W; rm -rf $W $B $E; }
+(cd $W && git apply "$P") || { echo "PATCH DOES NOT APPLY"; cleanup; exit 3; }
+[ -n "$WITH_KANI" ] && cp -r /verif/build/kani-target* $B/ 2>/dev/null
 for c in "$@"; do
-  ./check "$c" > /tmp/try_$c.log 2>&1; rc=$?
+  VERIF_REPO=$W VERIF_BUILD=$B VERIF_EVIDENCE=$E /verif/check "$c" --no-cover $( [ -n "$WITH_KANI" ] || echo --no-kani ) $CHECK_FLAGS > /tmp/try_$c.log 2>&1; rc=$?
   echo "== $c rc=$rc"; grep -E "^(VIOLATION|UNDECIDED|KNOWN|  obligation|C[0-9]+:)" /tmp/try_$c.log | head -12
 done
-cd /repo && git checkout -- . && git status --short | head -3
+cleanup
